@@ -245,7 +245,18 @@ func c17Images(hist []c17Op, scratch string) (images []c17Image, before, after c
 		add(durable, "at "+shortLabel(label), "power-loss")
 		prev = cur
 	}
-	defer func() { filestore.VerifPointHook = nil }()
+	// every write of the store is a crash point of its own as well (the hook the store asks before it writes): whatever
+	// it did to the file since the last point — a truncation ahead of the write, say — is an image to recover from
+	filestore.VerifFailHook = func(label string) error {
+		if h := filestore.VerifPointHook; h != nil {
+			if i := strings.LastIndex(label, ":"); i >= 0 {
+				label = label[:i+1] + shortName(filepath.Base(label[i+1:]))
+			}
+			h("before " + label)
+		}
+		return nil
+	}
+	defer func() { filestore.VerifPointHook, filestore.VerifFailHook = nil, nil }()
 	if last.K == "reopen" {
 		st.Close()
 		st, e = c17Factory(dir).Create(c17ID)
@@ -256,7 +267,7 @@ func c17Images(hist []c17Op, scratch string) (images []c17Image, before, after c
 		return images, before, after, true, nil
 	}
 	ok, e := c17Apply(st, &m, last, len(hist)-1)
-	filestore.VerifPointHook = nil
+	filestore.VerifPointHook, filestore.VerifFailHook = nil, nil
 	if e != nil {
 		return nil, before, after, false, e
 	}
